@@ -63,6 +63,20 @@ def boot():
                            % (got, LIB))
     # keep warnings quiet even if a library import re-enabled them
     warnings.simplefilter('ignore')
+    _register_custom_check()
+
+
+def _register_custom_check():
+    """A service-defined check class, registered through the public
+    policy.register(): 'simflag:<f>' holds when the credentials carry the
+    pseudo-role 'flag:<f>'. Its __call__ takes three arguments (no
+    current_rule), the older of the two signatures the library supports."""
+    from oslo_policy import policy
+
+    @policy.register('simflag')
+    class SimFlagCheck(policy.Check):
+        def __call__(self, target, creds, enforcer):
+            return ('flag:' + self.match) in (creds.get('roles') or [])
 
 
 def base_seed():
